@@ -290,3 +290,325 @@ func ruleR16_9(w *World, r *Report) {
 	}
 	_ = nCP
 }
+
+// ---------------------------------------------------------------------------------------------
+// rules from the round-7 changes
+
+// freshResult: every value fn returns as result idx is an object allocated by this very call (directly, or by a
+// callee that is fresh itself) - never something loaded from a field or a variable that outlives the call.
+func freshResult(fn *ssa.Function, idx int, depth int) (bool, string) {
+	if fn == nil || len(fn.Blocks) == 0 || depth > 3 {
+		return false, "no body"
+	}
+	bad := ""
+	n := 0
+	forEachOwnInstr(fn, func(in ssa.Instruction) {
+		ret, ok := in.(*ssa.Return)
+		if !ok || ret.Parent() != fn || idx >= len(ret.Results) {
+			return
+		}
+		for _, v := range resolvePhisOwn(ret.Results[idx]) {
+			n++
+			switch x := v.(type) {
+			case *ssa.Alloc:
+				if !x.Heap {
+					bad = exprName(v)
+				}
+			case *ssa.Call:
+				cal := staticCallee(x)
+				if cal == nil {
+					bad = exprName(v)
+				} else if ok2, why := freshResult(cal, 0, depth+1); !ok2 {
+					bad = fnName(cal) + ": " + why
+				}
+			case *ssa.Const:
+				// nil
+			default:
+				bad = exprName(v)
+			}
+		}
+	})
+	if n == 0 && bad == "" {
+		bad = "no return"
+	}
+	return bad == "", bad
+}
+
+// R15.7 the timestamp handed to the execution of an operation is a fresh object on every call: the execution consumes
+// delimiters by mutating it (GetAndNextDelimiter), and Rollback replays the very same operation objects.
+func ruleR15_7(w *World, r *Report) {
+	u := w.Client()
+	r.Rule("R15.7", "baseOperation.GetTimestamp and OperationID.GetTimestamp return a newly allocated Timestamp on every call (no caching in the operation): executions allocate element identifiers by advancing its delimiter, and a replayed operation must allocate the same identifiers again", 2)
+	for _, sp := range [][3]string{{pOperations, "baseOperation", "GetTimestamp"}, {pModel, "OperationID", "GetTimestamp"}} {
+		fn := u.Fn(sp[0], sp[1], sp[2])
+		if fn == nil {
+			r.Lost(sp[1] + "." + sp[2])
+			continue
+		}
+		ok, why := freshResult(fn, 0, 0)
+		r.Check(ok, sp[1]+"."+sp[2]+"/fresh timestamp", u.Pos(fn.Pos()), "every returned Timestamp is allocated by the call",
+			"the returned Timestamp is not allocated by the call ("+why+"): the executions of an operation advance the delimiter of this object, so a second execution of the same operation object (the replay after a failed transaction) continues with used-up delimiters and gives the elements it creates other identifiers than every other replica has")
+	}
+}
+
+// R07.5 a replica waiting for subscribe-or-create discards its unpushed buffer and its operation id only when the
+// response says that it subscribed to an existing datatype (subscribe bit).
+func ruleR07_5(w *World, r *Report) {
+	u := w.Client()
+	r.Rule("R07.5", "updateStateOfDatatype discards the local buffer and installs a fresh operation id only under the subscribe bit of the response (the answer a retried create gets - no bit at all - must keep what the replica has not pushed yet)", 2)
+	fn := u.Fn(pDatatypes, "WiredDatatype", "updateStateOfDatatype")
+	if fn == nil {
+		r.Lost("WiredDatatype.updateStateOfDatatype")
+		return
+	}
+	underSubscribeBit := func(in ssa.Instruction) bool {
+		paths, ok := reachingLits(fn, nil, in)
+		if !ok || len(paths) == 0 {
+			return false
+		}
+		for _, p := range paths {
+			g := false
+			for _, l := range p {
+				if l.Kind == "call" && l.Call != nil && calleeName(l.Call) == "HasSubscribeBit" && l.Pol {
+					g = true
+				}
+				if l.Kind == "bool" && l.Pol {
+					if c, ok := l.X.(*ssa.Call); ok && calleeName(c) == "HasSubscribeBit" {
+						g = true
+					}
+				}
+			}
+			if !g {
+				return false
+			}
+		}
+		return true
+	}
+	n := 0
+	for _, st := range storesTo(fn, ".localBuffer") {
+		n++
+		r.Check(underSubscribeBit(st), "updateStateOfDatatype/localBuffer discarded", u.Pos(st.Pos()), "only under HasSubscribeBit()",
+			"the buffer of operations not yet pushed is discarded on a path that is not under the subscribe bit of the response: the plain answer to a retried (lost) create makes the replica drop its own operations, which then never reach the server")
+	}
+	for _, c := range callsNamed(fn, "SetOpID") {
+		n++
+		r.Check(underSubscribeBit(c.(ssa.Instruction)), "updateStateOfDatatype/fresh operation id", u.Pos(c.Pos()), "only under HasSubscribeBit()",
+			"a fresh operation id is installed on a path that is not under the subscribe bit of the response: the replica renumbers operations the server may already hold")
+	}
+	if n == 0 {
+		r.Lost("updateStateOfDatatype: the reset of buffer and operation id for DUE_TO_SUBSCRIBE_CREATE")
+	}
+}
+
+// R09.12 who may take a new rollback point
+func ruleR09_12(w *World, r *Report) {
+	u := w.Client()
+	r.Rule("R09.12", "a new rollback point is taken (ResetTransaction) only where the datatype is (re)initialised: datatype.init, SetMetaAndSnapshot, and the two subscribe resets - never by the ordinary apply path, which can run while a local transaction is open", 4)
+	allowed := map[string]string{
+		"datatype.init":                              "initialisation",
+		"SnapshotDatatype.SetMetaAndSnapshot":        "import",
+		"WiredDatatype.checkOptionAndError":          "subscribe reset",
+		"WiredDatatype.updateStateOfDatatype":        "subscribe reset",
+		"TransactionDatatype.Rollback":               "rollback",
+		"TransactionDatatype.ResetTransaction":       "itself",
+		"TransactionDatatype.NewTransactionDatatype": "constructor",
+	}
+	n := 0
+	for _, fn := range u.ordaFuncs(func(p string) bool { return p == pDatatypes || p == pOrda || p == pCManagers }) {
+		if flattenable[fn] {
+			continue
+		}
+		for _, c := range callsNamed(fn, "ResetTransaction") {
+			n++
+			site := c.Parent()
+			for site.Parent() != nil {
+				site = site.Parent()
+			}
+			ok := ownersAllow(site, func(name string) bool { _, a := allowed[name]; return a })
+			r.Check(ok, fnName(fn)+"/takes a rollback point", u.Pos(c.Pos()), "an initialisation or reset site",
+				fnName(fn)+" takes a new rollback point: this function is not one of the (re)initialisation sites; when it runs while a local transaction is open (a response that carries no operations does not wait for the transaction lock) the rollback point lies in the middle of that transaction, and a failure of the transaction no longer restores the state from before it began")
+		}
+	}
+	if n < 4 {
+		r.Lost(fmt.Sprintf("callers of ResetTransaction (found %d, expected the four known sites)", n))
+	}
+}
+
+// R14.8 the encoding echo keeps no state between requests
+func ruleR14_8(w *World, r *Report) {
+	u := w.Server()
+	if u == nil {
+		return
+	}
+	r.Rule("R14.8", "the snapshot arm of the encoding-echo service builds its datatype on a client created for this request: a client kept across requests remembers the key with the type of the first request and refuses the next type", 1)
+	fn := u.Fn(pService, "OrdaService", "testEncodingSnapshotOperation")
+	if fn == nil {
+		r.Lost("OrdaService.testEncodingSnapshotOperation")
+		return
+	}
+	n := 0
+	for _, c := range callsNamed(fn, "CreateDatatype", "SubscribeOrCreateDatatype", "SubscribeDatatype") {
+		n++
+		recv, _ := recvAndArgs(c)
+		good := false
+		why := "?"
+		if recv != nil {
+			good = true
+			for _, v := range resolvePhis(throughHelperParam(recv)) {
+				call, ok := stripIface(v).(*ssa.Call)
+				if !ok || calleeName(call) != "NewClient" {
+					good = false
+					why = exprName(v)
+				}
+			}
+		}
+		r.Check(good, "testEncodingSnapshotOperation/client of the echo", u.Pos(c.Pos()), "created by NewClient in this request",
+			"the datatype of the encoding echo is created on a client that outlives the request ("+why+"): the client remembers key \"Testing\" with the type of the first snapshot, refuses a snapshot of another type, and the unchecked conversion of the nil result panics the handler")
+	}
+	if n == 0 {
+		r.Lost("testEncodingSnapshotOperation: creation of the echo datatype")
+	}
+}
+
+// R16.10 hand-written methods of the protocol model read a field through an optional sub-message only under a nil
+// test (or through the generated getters); an ErrorOperation, which nobody assigns an id later, is built with one.
+func ruleR16_10(w *World, r *Report) {
+	u := w.Client()
+	r.Rule("R16.10", "in the protocol model no hand-written method reads a field through an optional sub-message of its receiver (its.ID.Seq, its.CheckPoint.Sseq ...) without a nil test of that sub-message; the ErrorOperation constructors give the operation an id", 2)
+	n := 0
+	for _, fn := range u.ordaFuncs(func(p string) bool { return p == pModel }) {
+		if isGenerated(u.Fset, fn.Pos()) || len(fn.Params) == 0 || fn.Signature.Recv() == nil {
+			continue
+		}
+		recv := ssa.Value(fn.Params[0])
+		forEachOwnInstr(fn, func(in ssa.Instruction) {
+			fa, ok := in.(*ssa.FieldAddr)
+			if !ok {
+				return
+			}
+			ld, ok := fa.X.(*ssa.UnOp)
+			if !ok || ld.Op != token.MUL {
+				return
+			}
+			inner, ok := ld.X.(*ssa.FieldAddr)
+			if !ok || inner.X != recv {
+				return
+			}
+			pt, ok := ld.Type().Underlying().(*types.Pointer)
+			if !ok {
+				return
+			}
+			nt, ok := pt.Elem().(*types.Named)
+			if !ok || nt.Obj().Pkg() == nil || nt.Obj().Pkg().Path() != pModel {
+				return
+			}
+			n++
+			paths, okp := reachingLitsOwn(fn, nil, fa)
+			guarded := okp && len(paths) > 0
+			for _, p := range paths {
+				g := false
+				for _, l := range p {
+					if l.Kind != "cmp" || l.Op != token.NEQ {
+						continue
+					}
+					x, y := l.X, l.Y
+					if c, ok := x.(*ssa.Const); ok && c.Value == nil {
+						x, y = y, x
+					}
+					if c, ok := y.(*ssa.Const); ok && c.Value == nil && exprName(x) == exprName(ld) {
+						g = true
+					}
+				}
+				guarded = guarded && g
+			}
+			r.Check(guarded, fnName(fn)+"/"+fieldName(inner.X.Type(), inner.Field)+"."+fieldName(fa.X.Type(), fa.Field), u.Pos(fa.Pos()), "under a nil test of the sub-message",
+				fnName(fn)+" reads "+fieldName(fa.X.Type(), fa.Field)+" through the optional sub-message "+fieldName(inner.X.Type(), inner.Field)+" of its receiver without a nil test: logging a message that came (or was built) without it panics outside any recover")
+		})
+	}
+	for _, name := range []string{"NewErrorOperation", "NewErrorOperationWithCodeAndMsg"} {
+		fn := u.Fn(pOperations, "", name)
+		if fn == nil {
+			r.Lost("operations." + name)
+			continue
+		}
+		for _, c := range callsNamed(fn, "newBaseOperation") {
+			args := c.Common().Args
+			if len(args) < 2 {
+				continue
+			}
+			n++
+			isNil := false
+			for _, v := range resolvePhis(args[1]) {
+				if k, ok := v.(*ssa.Const); ok && k.Value == nil {
+					isNil = true
+				}
+			}
+			r.Check(!isNil, name+"/operation id", u.Pos(c.Pos()), "built with an id",
+				name+" builds the error operation without an operation id: unlike every other operation it is never given one later, and the answer to a refused push-pull is logged (server and client) through the id")
+		}
+	}
+	if n < 2 {
+		r.Lost(fmt.Sprintf("R16.10 instances (found %d)", n))
+	}
+}
+
+// R16.11 bounds of a slice expression that are computed from a length are computed from the length of the sequence
+// that is sliced (not of another representation of it: bytes vs runes).
+func ruleR16_11(w *World, r *Report) {
+	u := w.Client()
+	r.Rule("R16.11", "in the logging helpers that run on every request outside any recover (client/pkg/log), a slice bound derived from a length is derived from the length of the very sequence that is sliced", 1)
+	n := 0
+	for _, fn := range u.ordaFuncs(func(p string) bool { return strings.HasSuffix(p, "/client/pkg/log") }) {
+		forEachOwnInstr(fn, func(in ssa.Instruction) {
+			sl, ok := in.(*ssa.Slice)
+			if !ok {
+				return
+			}
+			var lens []ssa.Value
+			seen := map[ssa.Value]bool{}
+			var walk func(v ssa.Value, d int)
+			walk = func(v ssa.Value, d int) {
+				if v == nil || seen[v] || d > 8 {
+					return
+				}
+				seen[v] = true
+				switch x := v.(type) {
+				case *ssa.BinOp:
+					walk(x.X, d+1)
+					walk(x.Y, d+1)
+				case *ssa.Phi:
+					for _, e := range x.Edges {
+						walk(e, d+1)
+					}
+				case *ssa.Convert:
+					walk(x.X, d+1)
+				case *ssa.Call:
+					if b, ok := x.Call.Value.(*ssa.Builtin); ok && b.Name() == "len" && len(x.Call.Args) == 1 {
+						lens = append(lens, x.Call.Args[0])
+					}
+				}
+			}
+			walk(sl.Low, 0)
+			walk(sl.High, 0)
+			if len(lens) == 0 {
+				return
+			}
+			n++
+			good := true
+			for _, l := range lens {
+				_, conv := sl.X.(*ssa.Convert)
+				_, conv2 := l.(*ssa.Convert)
+				if l != sl.X && (conv || conv2 || exprName(l) != exprName(sl.X)) {
+					good = false
+				}
+			}
+			r.Check(good, fnName(fn)+"/slice bounds", u.Pos(sl.Pos()), "bounds from the length of the sliced sequence",
+				fnName(fn)+" slices "+exprName(sl.X)+" with a bound computed from the length of another sequence: for a tag with multi-byte characters the bound exceeds the sequence and the request's logging panics before the handler's recover is in place")
+		})
+	}
+	if n == 0 {
+		r.Lost("client/pkg/log: a slice bounded by a length (MakeShort)")
+	}
+}
+
+func ruleR06_1full(w *World, r *Report) { ruleR06_1(w, r, false) }
